@@ -45,6 +45,7 @@ from mistletoe.base_renderer import BaseRenderer  # noqa: E402
 
 NAMES = ['TokA', 'TokB', 'TokC', 'TokD']
 PRECS = [3, 4, 5, 6, 7]
+WRAP_PRECS = [4, 5, 6]
 
 
 # ------------------------------------------------------------------------------------------------
@@ -283,7 +284,11 @@ def run_case(text, types, want_pair=False):
 
     # resolution
     ncon += 1
-    if want_pair and len(cands) == 2:
+    if want_pair == 'wrapped' and len(cands) == 3:
+        outer = [c for c in cands if c.name == 'TokC'][0]
+        a, b = [c for c in cands if c.name != 'TokC']
+        exp = {(leaf(outer, kids),) for kids in expected_pair(a, b)}
+    elif want_pair and len(cands) == 2:
         exp = expected_pair(cands[0], cands[1])
     else:
         orders = tie_orders(cands)
@@ -293,9 +298,10 @@ def run_case(text, types, want_pair=False):
             exp = {resolve(o) for o in orders}
     if exp is not None and inside_tree not in exp:
         cls = None
-        if want_pair and len(cands) == 2:
-            x, y = code_order(cands)
-            if _is_case3(cands):
+        if want_pair and len(cands) in (2, 3):
+            pc = [c for c in cands if c.name != 'TokC'] if len(cands) == 3 else cands
+            x, y = code_order(pc)
+            if _is_case3(pc):
                 cls = 'relation-case3-ignores-precedence'
             elif x.s == y.s and y.ps <= x.s and x.e <= y.pe:
                 cls = 'equal-start-inner-listed-first-not-nested'
@@ -319,6 +325,9 @@ def run_case(text, types, want_pair=False):
         k2 = doc2.children[0].children if doc2.children else []
         plain = (len(k2) == 1 and type(k2[0]).__name__ == 'RawText'
                  and k2[0].content == _html.unescape(text)) or (not k2 and text == '')
+        if not types_ok:
+            block_token.reset_tokens()
+            span_token.reset_tokens()
         if not (types_ok and plain):
             fails.append(('context', {'token_list_default': types_ok,
                                       'children': [type(k).__name__ for k in k2]},
@@ -433,6 +442,26 @@ def run_pair_chunk(chunk):
                             res['relations'][rel] = res['relations'].get(rel, 0) + 1
                             for f in fails:
                                 res['failures'].append(mk_failure(f, text, types))
+        # the same placements one level down: TokC encloses both, so the conflict is resolved
+        # among the children of a token (eval_new_child) instead of at top level
+        tc = ('TokC', 'p(.*)q', 5, True, 1)
+        for preca in WRAP_PRECS:
+            for precb in WRAP_PRECS:
+                for pia in (True, False):
+                    for pib in (True, False):
+                        for first in ('A', 'B'):
+                            ta = ('TokA', pa, preca, pia, pga)
+                            tb = ('TokB', pb, precb, pib, pgb)
+                            types = [tc, ta, tb] if first == 'A' else [tb, ta, tc]
+                            ncon, fails, nontriv, skip = run_case(text, types, want_pair='wrapped')
+                            if skip:
+                                continue
+                            res['evaluations'] += 1
+                            res['wrapped'] = res.get('wrapped', 0) + 1
+                            res['contract_evaluations'] += ncon
+                            res['distinct_nontrivial'] += 1 if nontriv else 0
+                            for f in fails:
+                                res['failures'].append(mk_failure(f, text, types))
         if len(res['samples']) < 2:
             res['samples'].append({'text': text, 'TokA': pa, 'TokB': pb, 'relation': rel})
     return res
@@ -444,7 +473,8 @@ def mk_failure(f, text, types):
     d = {'key': '%s|%r' % (contract, (text, tuple(types))), 'contract': contract, 'input': inp,
          'observed': observed, 'expected': expected,
          'replay': 'from runtime import b16; print(b16.run_case(%r, %r, want_pair=%r))'
-                   % (text, list(types), len(types) == 2)}
+                   % (text, list(types), True if len(types) == 2 else
+                      ('wrapped' if any(t[1] == 'p(.*)q' for t in types) else False))}
     if cls:
         d['class'] = cls
     return d
@@ -529,7 +559,8 @@ def run(tier, seed, workers):
     for f in failures:
         c = f['contract'] + '/' + f.get('class', 'unclassified')
         by_class[c] = by_class.get(c, 0) + 1
-    pairs_eval = sum(r['evaluations'] for r in parts)
+    wrapped_eval = sum(r.get('wrapped', 0) for r in parts)
+    pairs_eval = sum(r['evaluations'] for r in parts) - wrapped_eval
     out.update({
         'domain': ('PAIRS: all %d distinct effective placements of one TokA match and one TokB match '
                    '(every weak ordering of the 8 endpoints start<=group_start<=group_end<=end of the two '
@@ -537,11 +568,14 @@ def run(tier, seed, workers):
                    'either delimiter / straddling) x precedence {3..7}^2 x parse_inner {T,F}^2 x parse_group '
                    '{0,1}^2 x registration order {AB,BA} = %d parses (exhaustive; patterns are literal '
                    'regexes over a text of distinct letters so each type has exactly one candidate); '
+                   'WRAPPED: the same placements enclosed in the parse group of a third token TokC '
+                   "('p(.*)q', parse_inner) so that the conflict is resolved among children, x precedence "
+                   '{4,5,6}^2 x parse_inner^2 x parse_group^2 x order = %d parses (exhaustive); '
                    'SETS: %d seeded random cases of 1..4 types (pattern from a pool of %d bracket-like '
                    'regexes, precedence 3..7, parse_inner, parse_group 0/1, random registration order) over '
                    'random texts (1..8 snippets of %r, cut at 16 characters); renderer: BaseRenderer subclass with explicit '
                    'render methods; texts contain no character that can start a built-in span token'
-                   % (len(cases), pairs_eval, nrand, len(POOL), SNIPPETS)),
+                   % (len(cases), pairs_eval, wrapped_eval, nrand, len(POOL), SNIPPETS)),
         'rule': ('a case is one (text, list of token types) parsed inside the renderer context and once '
                  'more after exit; non-trivial = at least two candidate matches overlap (conflict or '
                  'nesting has to be resolved)'),
